@@ -73,7 +73,14 @@ def event_of(lang, obs, c, extra_provided=()):
         funcs = [n for n in used if n.startswith(("serialize_", "deserialize_", "parse_"))]
     # TypeScript: ReviverFunc / ReplacerFunc are definitions typeshare adds for the user to call; the generated code never
     # USES them, so the property has nothing to demand there (an earlier version of this check did: false alarm, removed)
-    return {"lang": lang, "used": used, "provided": provided, "typevars": typevars, "functions_used": funcs, "requires": requires}
+    # identifiers of the mapping targets that this case really uses (the user's own text)
+    import re as _re
+    user_names = []
+    for trig, rust in (("mapped_date", "DateAlias"), ("mapped_bytes", "Vec<u8>")):
+        if trig in (c["trigger"], c["second"]) and rust in MAPPINGS.get(lang, {}):
+            user_names += _re.findall(r"[A-Za-z_]\w*", MAPPINGS[lang][rust])
+    return {"lang": lang, "used": used, "provided": provided, "typevars": typevars, "functions_used": funcs, "requires": requires,
+            "user_names": sorted(set(user_names))}
 
 
 def missing(ev):
@@ -81,7 +88,9 @@ def missing(ev):
            "python": {"List", "Dict", "Optional", "Union", "Literal", "Generic", "TypeVar", "Annotated", "Any", "BaseModel", "Field", "ConfigDict",
                       "BeforeValidator", "PlainSerializer", "Enum", "datetime"}}.get(ev["lang"], set())
     prov = set(ev["provided"])
-    return sorted(((set(ev["used"]) & voc) | set(ev["typevars"]) | set(ev["functions_used"]) | set(ev["requires"])) - prov)
+    own = {"datetime"} if set(ev["functions_used"]) & {"parse_rfc3339", "serialize_datetime_data"} else set()
+    users = set(ev.get("user_names", [])) - own
+    return sorted((((set(ev["used"]) & voc) - users) | set(ev["typevars"]) | set(ev["functions_used"]) | set(ev["requires"])) - prov)
 
 
 def run(chk):
